@@ -10,17 +10,22 @@
 //  CSV: complete enumeration of small tables over a 15-cell alphabet (19 cells for tables of <= 2 cells) + shape macros up
 //       to 30x8, written cell-wise and row-wise (arrays) in three writer configurations (default; ';' with decimal ',';
 //       tab), read back by a fresh TabularDataFile (unconfigured = auto-detection, or given the writer's configuration)
-//       and compared cell for cell.
+//       and compared cell for cell; plus a one-dimensional sweep of the magnitude of number cells (every decimal exponent of a
+//       double x 15-digit mantissas x sign, the float / double / int / Long boundaries, Var(float) / Var(int) / Var(Long) cells) on
+//       a 1-column and a 2-column table in every configuration (see "CSV: sweep of the magnitude of number cells" below).
 //  Two binaries from this file: c18_inicsv (ASan; quick + thorough) and, via c18_deep.cpp (-DC18_DEEP, flavour plain,
 //  thorough only), the largest products.
 //  Case strings: ini:<L|C eol>:<final newline 0/1>:<write() after k sets, -1 = destructor only>:<line letters>:<op letters>[:<flags>]
 //                   line letters 0..9 = LINES[], A.. = long lines; flags: o = the write is write(otherPath),
 //                   r = IniFile(path, false) (no automatic save), b = values assigned through operator[] instead of set()
 //                csv:<C cell-wise | A arrays>:<rows>x<cols>:<cell letters a..s, row major>[:<D|S|T writer configuration><a|s reader>]
+//                num:<C|A>:<1|2 columns>:<d Var(double) | f Var(float) | i Var(int) | l Var(Long)>:<value, %a or integer>:<D|S|T><a|s>
 #include <asl/IniFile.h>
 #include <asl/TabularDataFile.h>
 #include <asl/Var.h>
 #include <map>
+#include <math.h>
+#include <float.h>
 #include <sys/resource.h>
 #include <sys/mman.h>
 #include "vf.h"
@@ -470,6 +475,254 @@ static void run_csv(char mode, int R, int C, const std::string& cells, char cfg 
 	}
 }
 
+// =============================================================================================== CSV: sweep of the magnitude of number cells
+// The cell alphabet above holds seven numbers of moderate size. The statement speaks of any table of numbers, "numbers to the 15 significant digits written":
+// a one-dimensional family (no product with the table shapes) puts every number of a list that covers the whole range of a double - every decimal exponent
+// -324..308 x 15-digit mantissas x both signs, the boundaries of the float range (FLT_MAX, FLT_MIN, the smallest float and their neighbours), DBL_MAX, DBL_MIN,
+// subnormals, integers around 2^24, 2^31, 2^32, 2^53, 2^63, the switch between fixed and exponent notation - and Var(float) / Var(int) / Var(Long) typed cells
+// into a 1-column table [x],[x] (read with data()) and a 2-column table [x, ","],[1, x] (read with nextRow()/[i]/[name]), written cell-wise and as arrays in
+// every writer configuration x reader. NaN and the infinities are not numbers with digits to compare and the statement demands nothing for them (the writer
+// prints NaN as an empty cell and an infinity as the text "inf"): such cells are written and read under the memory oracle only.
+// Case strings: num:<C|A>:<1|2 columns>:<d Var(double) | f Var(float) | i Var(int) | l Var(Long)>:<value, %a or integer>:<D|S|T><a|s>
+struct Num { char kind; double d; };
+static std::vector<Num> NUMS;
+static int W_NS_TABLES, W_NS_CELLS, W_NS_ABOVE_FLOAT, W_NS_BELOW_FLOAT, W_NS_SUBNORMAL, W_NS_EXP3, W_NS_INT, W_NS_FLOAT, W_NS_LONG, W_NS_NEGATIVE, W_NS_DECIMAL_COMMA,
+	W_NS_NONFINITE, W_NS_TWOCOL, W_NS_ARRAYS, W_NS_FIXED_SMALL, W_NS_INT_ABOVE_2_53, W_NS_DBL_EXTREME, W_NS_AUTO_NONDEFAULT, W_NS_UNREPRESENTABLE;
+static Var num_var(const Num& n) {
+	switch (n.kind) {
+	case 'i': return Var((int)n.d);
+	case 'f': return Var((float)n.d);
+	case 'l': return Var((Long)n.d);
+	default: return Var(n.d);
+	}
+}
+static std::string num_value_str(const Num& n) { return (n.kind == 'i' || n.kind == 'l') ? fmt("%.0f", n.d) : n.d != n.d ? std::string("nan") : fmt("%a", n.d); }
+static const char* num_prec(const Num& n) { return n.kind == 'f' ? "%.7g" : "%.15g"; }
+static std::string num_show(const Num& n) {
+	const char* t = n.kind == 'i' ? "Var(int)" : n.kind == 'f' ? "Var(float)" : n.kind == 'l' ? "Var(Long)" : "Var(double)";
+	return fmt("%s %s", t, fmt(num_prec(n), n.d).c_str()) + fmt(" (exactly %.17g)", n.d);
+}
+// which narrowing a cell is exposed to: the class a failure is reported under (chosen from the input, so that one defect of one class does not hide another class)
+static const char* num_class(const Num& n) {
+	if (n.kind == 'i') return "_int";
+	if (n.kind == 'f') return "_floattyped";
+	if (n.d == 0) return "";
+	float y = (float)n.d;
+	if (y - y != 0) return "_above_float_range";
+	if (fabs(n.d) < DBL_MIN) return "_subnormal";
+	if (y == 0) return "_below_float_range";
+	return "";
+}
+static void add_num(std::set<std::pair<char, uint64_t> >& seen, char kind, double d) {
+	if (kind == 'f') d = (double)(float)d;
+	else if (kind == 'i') d = (double)(int)d;      // (also turns a -0.0 of the arithmetic below into the integer 0)
+	else if (kind == 'l') d = (double)(long long)d;
+	if (kind == 'f' && d - d != 0 && d == d) return;
+	uint64_t bits; memcpy(&bits, &d, 8);
+	if (d != d) bits = ~0ull;
+	if (!seen.insert(std::make_pair(kind, bits)).second) return;
+	Num n = { kind, d };
+	NUMS.push_back(n);
+}
+static void init_nums(bool T) {
+	std::set<std::pair<char, uint64_t> > seen;
+	// (1) every decimal exponent of a double x mantissas of 1 and 15 digits x sign (strtod: the correctly rounded double of that decimal text)
+	static const char* MD[] = { "1", "1.23456789012345", "9.99999999999999", "1.00000000000001", "5.00000000000001", // quick: these five
+		"2.5", "7.77777777777777", "3.14159265358979", "4.94065645841247", "2.2250738585072", "1.79769313486231", "6.02214076000001" };
+	for (int e = -324; e <= 308; e++)
+		for (int m = 0; m < (T ? 12 : 5); m++)
+			for (int sg = 0; sg < 2; sg++) {
+				double x = strtod(fmt("%s%se%d", sg ? "-" : "", MD[m], e).c_str(), 0);
+				if (x == 0 || x - x != 0) continue; // below the smallest subnormal / above DBL_MAX
+				add_num(seen, 'd', x);
+			}
+	// (2) boundaries, each with its neighbouring doubles and both signs
+	std::vector<double> B;
+	B.push_back(FLT_MAX); B.push_back(ldexp(1.0, 128) - ldexp(1.0, 103)); /* halfway between FLT_MAX and 2^128: the first double that narrows to +inf */ B.push_back(ldexp(1.0, 128));
+	B.push_back(FLT_MIN); B.push_back(ldexp(1.0, -149)); /* the smallest float */ B.push_back(ldexp(1.0, -150)); /* narrows to 0 */ B.push_back(ldexp(1.5, -150));
+	B.push_back(DBL_MAX); B.push_back(1.79769313486231e308); /* the largest number of 15 digits a double holds */ B.push_back(DBL_MIN); B.push_back(ldexp(1.0, -1074)); B.push_back(ldexp(1.0, -1073)); B.push_back(DBL_MIN - ldexp(1.0, -1074)); /* the largest subnormal */
+	B.push_back(ldexp(1.0, -1023)); B.push_back(1e-290); B.push_back(1e-300); B.push_back(1e300);
+	B.push_back(16777216.0); B.push_back(2147483648.0); B.push_back(4294967296.0); B.push_back(9007199254740992.0); B.push_back(9223372036854775808.0); B.push_back(18446744073709551616.0);
+	B.push_back(999999999999999.0); B.push_back(1e15); /* %.15g switches to exponent notation */ B.push_back(1e16); B.push_back(1e14);
+	B.push_back(0.0001); B.push_back(0.00001); /* %.15g switches to exponent notation below 1e-4 */ B.push_back(0.000123456789012345); B.push_back(0.0000123456789012345);
+	B.push_back(1.0); B.push_back(0.5); B.push_back(0.1); B.push_back(1.0 / 3); B.push_back(2.0 / 3); B.push_back(3.14159265358979);
+	for (size_t i = 0; i < B.size(); i++)
+		for (int sg = 0; sg < 2; sg++) {
+			double b = sg ? -B[i] : B[i];
+			add_num(seen, 'd', b);
+			if (b - b == 0) { add_num(seen, 'd', nextafter(b, 0.0)); add_num(seen, 'd', nextafter(nextafter(b, 0.0), 0.0)); }
+			if (fabs(b) < DBL_MAX) { add_num(seen, 'd', nextafter(b, sg ? -HUGE_VAL : HUGE_VAL)); add_num(seen, 'd', nextafter(nextafter(b, sg ? -HUGE_VAL : HUGE_VAL), sg ? -HUGE_VAL : HUGE_VAL)); }
+		}
+	static const int K2[] = { 24, 31, 32, 53, 63, 64 }; // integers 2^k - 1, 2^k, 2^k + 1 (as far as a double holds them)
+	for (size_t j = 0; j < sizeof K2 / sizeof K2[0]; j++)
+		for (int dlt = -1; dlt <= 1; dlt++) for (int sg = 0; sg < 2; sg++) add_num(seen, 'd', (sg ? -1 : 1) * (ldexp(1.0, K2[j]) + dlt));
+	add_num(seen, 'd', 0.0); add_num(seen, 'd', -0.0);
+	// (3) Var(Long) cells (a NUMBER): integers around 2^31, 2^32, 2^53, up to the ends of the type
+	{
+		static const double L[] = { 2147483647.0, 2147483648.0, 2147483649.0, 4294967295.0, 4294967296.0, 4294967297.0, 9007199254740991.0, 9007199254740992.0, 9007199254740994.0,
+			999999999999999.0, 1e15, 1e18, 4611686018427387904.0, 9223372036854774784.0 /* the largest double below 2^63 */ };
+		for (size_t i = 0; i < sizeof L / sizeof L[0]; i++) { add_num(seen, 'l', L[i]); add_num(seen, 'l', -L[i]); }
+		add_num(seen, 'l', -9223372036854775808.0); add_num(seen, 'l', 0); add_num(seen, 'l', -1); add_num(seen, 'l', 7);
+	}
+	// (4) Var(int) cells (INT, written with %i): the ends of the type, every power of ten and of 2^8 and their neighbours
+	{
+		add_num(seen, 'i', 0);
+		for (int sg = 0; sg < 2; sg++) {
+			double p10 = 1;
+			for (int k = 0; k <= 9; k++, p10 *= 10) for (int dlt = -1; dlt <= 1; dlt++) add_num(seen, 'i', (sg ? -1 : 1) * (p10 + dlt));
+			for (int k = 8; k <= 24; k += 8) for (int dlt = -1; dlt <= 1; dlt++) add_num(seen, 'i', (sg ? -1 : 1) * (ldexp(1.0, k) + dlt));
+			add_num(seen, 'i', (sg ? -1 : 1) * 2147483647.0); add_num(seen, 'i', (sg ? -1 : 1) * 2147483646.0); add_num(seen, 'i', (sg ? -1 : 1) * 1234567890.0);
+		}
+		add_num(seen, 'i', -2147483648.0);
+	}
+	// (5) Var(float) cells (FLOAT, written with %.7g): every decimal exponent of a float x mantissas of 1 and 7 digits x sign, and the ends of the type
+	{
+		static const char* MF[] = { "1", "1.234567", "9.999999", "5.000001" };
+		for (int e = -46; e <= 38; e++)
+			for (int m = 0; m < (T ? 4 : 3); m++)
+				for (int sg = 0; sg < 2; sg++) {
+					float x = strtof(fmt("%s%se%d", sg ? "-" : "", MF[m], e).c_str(), 0);
+					if (x == 0 || x - x != 0) continue;
+					add_num(seen, 'f', x);
+				}
+		static const float F[] = { FLT_MAX, FLT_MIN, 1.401298464324817e-45f, 16777216.0f, 16777215.0f, 0.1f, 1.0f, 0.3333333f, 2147483648.0f, 9999999.0f, 1e7f, 0.0001f, 0.00001f };
+		for (size_t i = 0; i < sizeof F / sizeof F[0]; i++)
+			for (int sg = 0; sg < 2; sg++) {
+				float b = sg ? -F[i] : F[i];
+				add_num(seen, 'f', b); add_num(seen, 'f', nextafterf(b, 0.0f));
+				if (fabsf(b) < FLT_MAX) add_num(seen, 'f', nextafterf(b, sg ? -HUGE_VALF : HUGE_VALF));
+			}
+		add_num(seen, 'f', 0.0);
+	}
+	// (6) not numbers: memory oracle only
+	add_num(seen, 'd', NAN); add_num(seen, 'd', HUGE_VAL); add_num(seen, 'd', -HUGE_VAL);
+	{ Num n = { 'f', NAN }; NUMS.push_back(n); n.d = HUGE_VAL; NUMS.push_back(n); n.d = -HUGE_VAL; NUMS.push_back(n); }
+}
+
+static void run_num(char mode, int C, const Num& n, char cfg, char rd) {
+	std::string kase = fmt("num:%c:%d:%c:%s:%c%c", mode, C, n.kind, num_value_str(n).c_str(), cfg, rd);
+	vf::cur(kase);
+	vf::add(C_EVAL); vf::add(C_DISTINCT);
+	vf::add(W_NS_TABLES);
+	bool finite = n.d - n.d == 0;
+	std::string written = fmt(num_prec(n), n.d);
+	// the 15 digits of the doubles from 1.797693134862315e308 to DBL_MAX round up to 1.79769313486232e+308, which is more than DBL_MAX: the digits written denote no double,
+	// no reader can return them, nothing is demanded (reference: strtod of the digits is infinite)
+	if (finite && strtod(written.c_str(), 0) - strtod(written.c_str(), 0) != 0) { finite = false; vf::add(W_NS_UNREPRESENTABLE); }
+	std::string cls = num_class(n);
+	if (mode == 'A') vf::add(W_NS_ARRAYS);
+	if (C == 2) vf::add(W_NS_TWOCOL);
+	if (n.d - n.d != 0) vf::add(W_NS_NONFINITE);
+	if (finite) {
+		if (cls == "_above_float_range") vf::add(W_NS_ABOVE_FLOAT); else if (cls == "_below_float_range") vf::add(W_NS_BELOW_FLOAT); else if (cls == "_subnormal") vf::add(W_NS_SUBNORMAL);
+		if (n.kind == 'i') vf::add(W_NS_INT); else if (n.kind == 'f') vf::add(W_NS_FLOAT); else if (n.kind == 'l') vf::add(W_NS_LONG);
+		size_t ep = written.find('e');
+		if (ep != std::string::npos && written.size() - ep == 5) vf::add(W_NS_EXP3);
+		if (ep == std::string::npos && fabs(n.d) < 0.001 && n.d != 0) vf::add(W_NS_FIXED_SMALL);
+		if (n.d < 0) vf::add(W_NS_NEGATIVE);
+		if (cfg == 'S' && written.find('.') != std::string::npos) vf::add(W_NS_DECIMAL_COMMA);
+		if (n.kind != 'f' && fabs(n.d) > 9007199254740992.0 && fabs(n.d) < 2e19 && n.d == floor(n.d)) vf::add(W_NS_INT_ABOVE_2_53);
+		if (fabs(n.d) == 1.79769313486231e308 || fabs(n.d) == ldexp(1.0, -1074)) vf::add(W_NS_DBL_EXTREME);
+		if (cfg != 'D' && rd == 'a') vf::add(W_NS_AUTO_NONDEFAULT);
+	}
+	std::string sfx = cls + (cfg == 'S' ? "_semicolon" : cfg == 'T' ? "_tab" : "");
+	std::string path = scratch_file("csv");
+	remove(path.c_str());
+	vf::asan_clear();
+	{
+		TabularDataFile f(vfx::A(path));
+		csv_configure(f, cfg);
+		Array<String> cols;
+		for (int c = 0; c < C; c++) cols << vfx::A(fmt("c%d", c));
+		f.columns(cols);
+		if (!f.ok()) { fprintf(stderr, "c18: cannot write scratch file %s\n", path.c_str()); _exit(2); }
+		for (int r = 0; r < 2; r++) {
+			Array<Var> row;
+			if (C == 1) row << num_var(n);
+			else if (r == 0) row << num_var(n) << Var(vfx::A(","));
+			else row << Var(1) << num_var(n);
+			if (mode == 'A') f << Var(row);
+			else for (int c = 0; c < C; c++) f << row[c];
+		}
+	}
+	if (vf::asan_tripped()) { report("csv_asan_sweep" + sfx, "ASan " + vf::asan_what() + " while writing a table with the cell " + num_show(n), kase); vf::asan_clear(); }
+	std::string raw; slurp(path, raw);
+	std::vector<std::vector<Var> > got, byname;
+	{
+		TabularDataFile g(vfx::A(path));
+		if (rd == 's') csv_configure(g, cfg);
+		if (C == 1) {
+			Array<Array<Var> > d = g.data();
+			for (int r = 0; r < d.length(); r++) { got.push_back(std::vector<Var>()); for (int c = 0; c < d[r].length(); c++) got.back().push_back(d[r][c]); }
+		}
+		else while (g.nextRow()) {
+			got.push_back(std::vector<Var>()); byname.push_back(std::vector<Var>());
+			int k = g.row().length();
+			for (int c = 0; c < k; c++) got.back().push_back(g[c]);
+			for (int c = 0; c < C; c++) byname.back().push_back(g[vfx::A(fmt("c%d", c))]);
+		}
+	}
+	if (vf::asan_tripped()) { report("csv_asan_sweep" + sfx, "ASan " + vf::asan_what() + " while reading back a table with the cell " + num_show(n) + "; file " + show(raw), kase); vf::asan_clear(); }
+	if (!finite) return; // nothing is demanded of a table that holds a cell that is not a number (or whose digits denote none)
+	if ((int)got.size() != 2) { report("csv_rows_sweep" + sfx, fmt("2 rows written, %d rows read back; cell %s; file ", (int)got.size(), num_show(n).c_str()) + show(raw), kase); return; }
+	for (int r = 0; r < 2; r++) {
+		if ((int)got[r].size() != C) { report("csv_cols_sweep" + sfx, fmt("row %d written with %d cells is read back with %d cells; cell %s; file ", r, C, (int)got[r].size(), num_show(n).c_str()) + show(raw), kase); return; }
+		for (int c = 0; c < C; c++)
+			for (int via = 0; via < (byname.empty() ? 1 : 2); via++) {
+				const Var& v = via ? byname[r][c] : got[r][c];
+				bool isx = C == 1 || r == c; // the swept cell is at (0,0) and (1,1); (0,1) holds the string "," and (1,0) the number 1
+				std::string gs = v.is(Var::NUMBER) ? fmt("number %.17g", (double)v) : v.is(Var::STRING) ? std::string("string <") + *v + ">" : fmt("a value of type %d", (int)v.type());
+				bool ok;
+				std::string want;
+				if (isx) {
+					vf::add(W_NS_CELLS);
+					// numbers must agree to the digits the writer prints: 15 significant digits (7 for a Var(float))
+					// (a zero must read back as zero: the sign of a zero is no digit, -0.0 may come back as 0)
+					ok = v.is(Var::NUMBER) && (n.d == 0 ? (double)v == 0 : fmt(num_prec(n), (double)v) == written);
+					want = num_show(n);
+				}
+				else if (r == 0) { ok = v.is(Var::STRING) && std::string(*v) == ","; want = "string <,>"; }
+				else { ok = v.is(Var::NUMBER) && (double)v == 1; want = "number 1"; }
+				if (!ok) {
+					report((isx ? "csv_number_sweep" : "csv_neighbour_sweep") + sfx, fmt("cell (%d,%d)%s written as %s is read back as %s; file ", r, c, via ? " (by column name)" : "", want.c_str(), gs.c_str()) + show(raw), kase);
+					return;
+				}
+			}
+	}
+}
+static bool parse_num_case(const std::string& k) {
+	std::vector<std::string> f;
+	size_t p = 0;
+	while (true) { size_t e = k.find(':', p); f.push_back(k.substr(p, e == std::string::npos ? std::string::npos : e - p)); if (e == std::string::npos) break; p = e + 1; }
+	if (f.size() != 6 || f[1].size() != 1 || f[2].size() != 1 || f[3].size() != 1 || f[5].size() != 2) return false;
+	if ((f[1] != "C" && f[1] != "A") || (f[2] != "1" && f[2] != "2") || !strchr("dfil", f[3][0]) || !strchr("DST", f[5][0]) || !strchr("as", f[5][1])) return false;
+	char* end = 0;
+	Num n = { f[3][0], strtod(f[4].c_str(), &end) };
+	if (!end || *end || f[4].empty()) return false;
+	if (n.kind == 'i' && !(n.d >= -2147483648.0 && n.d <= 2147483647.0)) return false;
+	if (n.kind == 'l' && !(n.d >= -9223372036854775808.0 && n.d < 9223372036854775808.0)) return false;
+	run_num(f[1][0], f[2][0] - '0', n, f[5][0], f[5][1]);
+	return true;
+}
+// every number of the list x {1 column, 2 columns} x {cell-wise, arrays} x every writer configuration x reader
+#ifndef C18_DEEP
+static void csv_number_sweep() {
+	if (vf::deadline_passed()) { vf::cap_hit("deadline before the CSV number sweep"); return; }
+	double t0 = vf::now_s(), c0 = cpu_children();
+	vf::parallel(NUMS.size(), [&](uint64_t i) {
+		if (vf::deadline_passed()) { static bool said = false; if (!said) { said = true; vf::cap_hit("deadline inside the CSV number sweep"); } return; }
+		for (int C = 1; C <= 2; C++)
+			for (const char* cb = "DaSaSsTaTs"; cb[0] && cb[1]; cb += 2) {
+				// a one-column file contains no separator: an unconfigured reader cannot learn the writer's dialect from it, which the statement does not demand
+				if (C == 1 && cb[0] != 'D' && cb[1] == 'a') continue;
+				run_num('C', C, NUMS[i], cb[0], cb[1]);
+				run_num('A', C, NUMS[i], cb[0], cb[1]);
+			}
+	}, 8);
+	family_done(fmt("csv_number_sweep_%d_numbers", (int)NUMS.size()), t0, c0);
+}
+#endif
+
 // =============================================================================================== driver
 static void run_case(const std::string& k) {
 	if (k.compare(0, 4, "ini:") == 0) { IniCase c; if (parse_ini_case(k, c)) run_ini(c); else fprintf(stderr, "c18: cannot parse case %s\n", k.c_str()); }
@@ -483,6 +736,7 @@ static void run_case(const std::string& k) {
 		char cfg = f.size() > 4 && f[4].size() == 2 ? f[4][0] : 'D', rd = f.size() > 4 && f[4].size() == 2 ? f[4][1] : 'a';
 		run_csv(f[1][0], R, C, f[3], cfg, rd);
 	}
+	else if (k.compare(0, 4, "num:") == 0) { if (!parse_num_case(k)) fprintf(stderr, "c18: cannot parse case %s\n", k.c_str()); }
 }
 
 #ifdef C18_DEEP
@@ -651,6 +905,16 @@ int main(int argc, char** argv) {
 	W_CSV_PLUSEXP = vf::counter("w.csv_number_with_plus_exponent"); W_CSV_FRACTION15 = vf::counter("w.csv_number_with_15_fraction_digits"); W_CSV_DECIMAL_COMMA = vf::counter("w.csv_fraction_written_with_decimal_comma");
 	W_CSV_FLOAT = vf::counter(OTHER_PART_W "csv_float_cells"); W_CSV_HEAPSTR = vf::counter(OTHER_PART_W "csv_string_cells_of_8_or_more_characters"); W_CSV_LONGLINE = vf::counter(OTHER_PART_W "csv_line_of_255_or_more_characters");
 	W_CSV_SIX = vf::counter(DEEP_ONLY_W "csv_tables_of_six_cells");
+	W_NS_TABLES = vf::counter(OTHER_PART_W "csv_sweep_tables"); W_NS_CELLS = vf::counter(OTHER_PART_W "csv_sweep_number_cells_compared");
+	W_NS_ABOVE_FLOAT = vf::counter(OTHER_PART_W "csv_sweep_finite_double_above_FLT_MAX"); W_NS_BELOW_FLOAT = vf::counter(OTHER_PART_W "csv_sweep_normal_double_that_narrows_to_float_zero");
+	W_NS_SUBNORMAL = vf::counter(OTHER_PART_W "csv_sweep_subnormal_double"); W_NS_EXP3 = vf::counter(OTHER_PART_W "csv_sweep_three_digit_exponent");
+	W_NS_INT = vf::counter(OTHER_PART_W "csv_sweep_int_typed_cell"); W_NS_FLOAT = vf::counter(OTHER_PART_W "csv_sweep_float_typed_cell"); W_NS_LONG = vf::counter(OTHER_PART_W "csv_sweep_long_typed_cell");
+	W_NS_NEGATIVE = vf::counter(OTHER_PART_W "csv_sweep_negative_number"); W_NS_DECIMAL_COMMA = vf::counter(OTHER_PART_W "csv_sweep_written_with_decimal_comma");
+	W_NS_NONFINITE = vf::counter(OTHER_PART_W "csv_sweep_nan_or_infinity_memory_oracle_only"); W_NS_TWOCOL = vf::counter(OTHER_PART_W "csv_sweep_two_column_tables");
+	W_NS_ARRAYS = vf::counter(OTHER_PART_W "csv_sweep_written_as_arrays"); W_NS_FIXED_SMALL = vf::counter(OTHER_PART_W "csv_sweep_fixed_notation_below_0_001");
+	W_NS_INT_ABOVE_2_53 = vf::counter(OTHER_PART_W "csv_sweep_integer_above_2_53"); W_NS_DBL_EXTREME = vf::counter(OTHER_PART_W "csv_sweep_largest_15_digit_double_or_smallest_subnormal");
+	W_NS_AUTO_NONDEFAULT = vf::counter(OTHER_PART_W "csv_sweep_nondefault_dialect_read_by_autodetection");
+	W_NS_UNREPRESENTABLE = vf::counter(OTHER_PART_W "csv_sweep_15_digits_exceed_DBL_MAX_memory_oracle_only");
 	if (vf::opt.replay) { vf::parallel(1, [&](uint64_t) { run_case(vf::opt.kase); }); return vf::finish(); }
 	bool T = vf::opt.thorough();
 	(void)T;
@@ -701,6 +965,9 @@ int main(int argc, char** argv) {
 	csv_shape(1, 1, CSV19, ALLCOMBOS); csv_shape(1, 2, CSV19, ALLCOMBOS); csv_shape(2, 1, CSV19, ALLCOMBOS);
 	csv_shape(3, 1, CSV15, ALLCOMBOS); csv_shape(1, 3, CSV15, ALLCOMBOS);
 	csv_shape(2, 2, CSV15, T ? ALLCOMBOS : "DaSaTs");
+	// ---------------- CSV (n): the magnitude of number cells: a list that spans the range of double / float / int / Long, one number per table
+	init_nums(T);
+	csv_number_sweep();
 	// ---------------- CSV (b): shape macros: every shape up to 30x8, 19 diagonal fills + 19 mostly-uniform fills
 	// (quick: the non-default configurations with 3 of the diagonal fills only)
 	{
@@ -726,6 +993,7 @@ int main(int argc, char** argv) {
 	vf::sample("ini:L:1:1:068:c:o = text \"[a]\\n; x=9\\n  # c\\n\", set(\"a/n\",\"v\"); write(otherPath): the other file and, after destruction, the original must both hold a/n=v and both comments");
 	vf::sample("ini 20-set histories: set(a/x,v) set(a/x,w w) set(a/n,v) ... cycling over {a/x,a/n,ab/y,c/k,x} x {v,'w w',''} with write() after 0/1/10/19/20 sets");
 	vf::sample("csv:C:2x2:gmdk:Ss = rows [\",\", \"\\\"q\\\"\"], [123456789012345, \" \"] written cell by cell with ';' as separator and ',' as decimal, read back with data() by a reader given the same settings");
+	vf::sample("num:A:2:d:0x1.f9bd7f5fa3ab8p+997:Ss = rows [1.3219e300-like 15-digit double, \",\"], [1, the same double] written as arrays with ';' and decimal ',', read with nextRow()/[i]/[name] by a reader given the same settings; must read back equal under %.15g");
 	vf::sample("csv:A:30x8:<diagonal fill>:Ta = 30 rows x 8 columns over the 19 cells written as arrays with tab separators, read with nextRow()/[i]/[name] by an unconfigured reader");
 	return vf::finish();
 #endif
